@@ -16,3 +16,11 @@ open MdVerif.RefText
 #print axioms C15_mix_loop
 #print axioms C15_label_linebreak
 #print axioms C15_label_linebreak_variant
+#print axioms C15_useOfDef_lookup
+#print axioms C15_text_markup_defs
+#print axioms C15_text_markup_fmt
+#print axioms C15_text_markup_defs_fmt
+#print axioms C15_specUsesF_spec
+#print axioms C15_aOpenF_plain
+#print axioms C15_specUsesF_xhtml
+#print axioms C15_mix_line_fmt
